@@ -10,10 +10,10 @@ TB = ("Trusted: Coq 8.16.1 kernel/coqc (no native_compute), no axioms (Print Ass
 DIFF = (" The model is tied to /repo on every run by regenerating the can_catch/exit_code tables from src/error.rs and by a "
         "differential run of the extracted model against the real library (Rust driver over the public API, real construct!) "
         "on generated cases under the property's projection (outcome class; value; help level; for failures WHICH error message "
-        "is reported and its TEXT: Model/Message.v transcribes Message::render and the extracted model's stderr text is "
-        "compared byte for byte with the library's for every failure reported at the top level on a UTF-8 line; for failures "
-        "handed out of a subcommand or lossy lines the text must fit the frame of the message kind -- and carry the payload -- "
-        "the model predicts); a property-specific oracle on the implementation's outputs "
+        "is reported: the text of the library must fit the frame of the message kind -- and carry the payload -- the model "
+        "predicts; in the checks whose property speaks about the message itself (C04, C06, C11) also its TEXT: Model/Message.v "
+        "transcribes Message::render and the extracted model's stderr text is compared byte for byte with the library's for "
+        "every failure reported at the top level on a UTF-8 line); a property-specific oracle on the implementation's outputs "
         "alone searches for a concrete failing input.")
 
 CHECKS = {
